@@ -100,7 +100,10 @@ def build(formula, df, na_action="drop", **kw):
     try:
         with warnings.catch_warnings():
             warnings.simplefilter("ignore")
-            dm = design_matrices(formula, df, na_action=na_action, **kw)
+            if na_action is None:
+                dm = design_matrices(formula, df, **kw)   # the documented default policy ('drop')
+            else:
+                dm = design_matrices(formula, df, na_action=na_action, **kw)
         return "ok", dm
     except Exception as e:  # pylint: disable=broad-except
         return "exc", e
